@@ -537,6 +537,7 @@ func KVAlphabet() []Op {
 		del      []string
 		preserve bool
 		macros   bool
+		macroOn  string // the xattr the macro paths address (default _s)
 		tier     int
 	}
 	wwxOp := func(a wwx) {
@@ -546,9 +547,13 @@ func KVAlphabet() []Op {
 				if a.preserve || a.macros {
 					opts = &sgbucket.MutateInOptions{PreserveExpiry: a.preserve}
 					if a.macros {
+						on := "_s"
+						if a.macroOn != "" {
+							on = a.macroOn
+						}
 						opts.MacroExpansion = []sgbucket.MacroExpansionSpec{
-							sgbucket.NewMacroExpansionSpec("_s.cas", sgbucket.MacroCas),
-							sgbucket.NewMacroExpansionSpec("_s.crc", sgbucket.MacroCrc32c),
+							sgbucket.NewMacroExpansionSpec(on+".cas", sgbucket.MacroCas),
+							sgbucket.NewMacroExpansionSpec(on+".crc", sgbucket.MacroCrc32c),
 						}
 					}
 				}
@@ -618,7 +623,11 @@ func KVAlphabet() []Op {
 					x.Exp = pre.Exp
 				}
 				if a.macros {
-					x.Macros = map[string]string{"_s": "cas+crc"}
+					on := "_s"
+					if a.macroOn != "" {
+						on = a.macroOn
+					}
+					x.Macros = map[string]string{on: "cas+crc"}
 				}
 				return x
 			}})
@@ -632,6 +641,9 @@ func KVAlphabet() []Op {
 	wwxOp(wwx{name: "body+u-del_s", tok: "C", body: J(`{"v":"wwxd"}`), vals: xs("u", `{"by":"wwxu"}`), del: []string{"_s"}})
 	wwxOp(wwx{name: "macros", tok: "C", body: J(`{"v":"wwxm"}`), vals: xs("_s", `{"by":"m","cas":"x","crc":"y"}`), macros: true})
 	wwxOp(wwx{name: "macros", tok: "Z", body: J(`{"v":"wwxm"}`), vals: xs("_s", `{"by":"m","cas":"x","crc":"y"}`), macros: true, tier: 1})
+	// macros addressed to _s2 only, in a call that also sets _s (a name that is a prefix of the other): _s is stored as given
+	wwxOp(wwx{name: "macros-on-longer-name", tok: "C", body: J(`{"v":"wwxl"}`), macros: true, macroOn: "_s2",
+		vals: map[string][]byte{"_s": J(`{"by":"m0","cas":"literal"}`), "_s2": J(`{"by":"m2","cas":"x","crc":"y"}`)}})
 	wwxOp(wwx{name: "macros-xonly", tok: "C", vals: xs("_s", `{"by":"mx","cas":"x","crc":"y"}`), macros: true})
 	wwxOp(wwx{name: "exp", tok: "C", e: relExp, body: J(`{"v":"wwxe"}`), vals: xs("_s", `{"by":"wwxe"}`)})
 	wwxOp(wwx{name: "preserve", tok: "C", body: J(`{"v":"wwxp"}`), vals: xs("_t", `{"by":"wwxp"}`), preserve: true})
@@ -723,6 +735,16 @@ func KVAlphabet() []Op {
 			sgbucket.NewMacroExpansionSpec("_s.cas", sgbucket.MacroCas), sgbucket.NewMacroExpansionSpec("_s.crc", sgbucket.MacroCrc32c)}}
 	}
 	macroVals := xs("_s", `{"by":"mac","cas":"x","crc":"y"}`)
+	add(Op{Name: "WriteWithXattrs/macro-whole-xattr-path/C", EP: "WriteWithXattrs/macro-badpath",
+		Run: func(c *rosmar.Collection, env Env) Result {
+			opts := &sgbucket.MutateInOptions{MacroExpansion: []sgbucket.MacroExpansionSpec{sgbucket.NewMacroExpansionSpec("_s", sgbucket.MacroCas)}}
+			cas, err := c.WriteWithXattrs(ctx, "k", 0, env.Cas("C"), J(`{"v":"mbp"}`), xs("_s", `{"by":"mbp"}`), nil, opts)
+			r := resErr(err)
+			r.Cas = cas
+			return r
+		},
+		// a macro must address a property inside an xattr: a failure cause like bad JSON - refused, nothing changes
+		Spec: func(pre Doc, env Env) Expect { return Expect{Succeeds: No, OutcomeProp: "C07"} }})
 	add(Op{Name: "WriteResurrectionWithXattrs/macros", EP: "WriteResurrectionWithXattrs", Tier: 0,
 		Run: func(c *rosmar.Collection, env Env) Result {
 			cas, err := c.WriteResurrectionWithXattrs(ctx, "k", 0, J(`{"v":"resm"}`), macroVals, macroOpts())
@@ -779,6 +801,21 @@ func KVAlphabet() []Op {
 	wux("update", 0, func(_ *int, _ []byte, _ map[string][]byte, _ uint64) (sgbucket.UpdatedDoc, error) {
 		return sgbucket.UpdatedDoc{Doc: wuxBody, Xattrs: wuxVals}, nil
 	}, wuxUpdSpec)
+	// the expiry PARAMETER of WriteUpdateWithXattrs (the callback gives none): it is a write with that expiry
+	add(Op{Name: "WriteUpdateWithXattrs/expparam", EP: "WriteUpdateWithXattrs/expparam",
+		Run: func(c *rosmar.Collection, env Env) Result {
+			cas, err := c.WriteUpdateWithXattrs(ctx, "k", RealXNames, relExp, nil, &sgbucket.MutateInOptions{}, func(doc []byte, x map[string][]byte, cas uint64) (sgbucket.UpdatedDoc, error) {
+				return sgbucket.UpdatedDoc{Doc: wuxBody, Xattrs: wuxVals}, nil
+			})
+			r := resErr(err)
+			r.Cas = cas
+			return r
+		},
+		Spec: func(pre Doc, env Env) Expect {
+			x := wuxUpdSpec(pre, env)
+			x.Exp = AbsExp(relExp, env.Now)
+			return x
+		}})
 	wux("retry", 1, func(calls *int, _ []byte, _ map[string][]byte, _ uint64) (sgbucket.UpdatedDoc, error) {
 		if *calls == 1 {
 			return sgbucket.UpdatedDoc{}, sgbucket.ErrCasFailureShouldRetry
